@@ -33,6 +33,10 @@ type c15Handler struct {
 	d    *c15Data
 	got  []c15Delivery
 	core bool // registered at the core level: runs synchronously inside Publish, takes no actions
+	// selfUnsub: a core level handler that unsubscribes itself while handling its n-th event (what
+	// the stack's own handler does, indirectly, when its last remote device goes)
+	selfUnsub int
+	unsubRet  uint64
 }
 
 type c15Data struct {
@@ -42,6 +46,7 @@ type c15Data struct {
 	ops      []*c15Op
 	nested   int
 	coreH    *c15Handler
+	coreH2   *c15Handler
 }
 
 //go:norace
@@ -113,6 +118,12 @@ func (h *c15Handler) HandleEvent(p api.EventPayload) {
 	seq := w.Logf("h%d handles %s", h.id, marker)
 	h.got = append(h.got, c15Delivery{seq, marker})
 	if h.core {
+		if h.selfUnsub > 0 && len(h.got) == h.selfUnsub && h.unsubRet == 0 {
+			w.Logf("invoke unsubscribe (core level) h%d inside its handler", h.id)
+			spine.VerifUnsubscribeCore(h)
+			h.unsubRet = w.Logf("return unsubscribe (core level) h%d", h.id)
+			w.Probe("c15-core-handler-unsubscribed-inside-handler")
+		}
 		return
 	}
 	// handlers may use the bus and the stack while handling an event
@@ -139,7 +150,7 @@ func (h *c15Handler) HandleEvent(p api.EventPayload) {
 
 func init() {
 	Register(&Scenario{
-		Prop: "C15", Name: "event-bus",
+		Prop: "C15", Name: "event-bus", DeadlockDirected: true,
 		NonTrivial: []string{"c15-delivery-checked"},
 		Build: func(w *World) {
 			d := &c15Data{w: w}
@@ -160,6 +171,37 @@ func init() {
 			coreH := &c15Handler{id: 100, d: d, core: true}
 			spine.VerifSubscribeCore(coreH)
 			d.coreH = coreH
+			if w.T.Bool(1, 2, "second-core-handler") {
+				d.coreH2 = &c15Handler{id: 101, d: d, core: true, selfUnsub: 1 + w.T.Choose(3, "self-unsub-at")}
+				spine.VerifSubscribeCore(d.coreH2)
+			}
+			// the only peer goes (and maybe comes back) while events are published: the stack's own
+			// handler is unsubscribed with its last remote device and subscribed again with the next
+			if w.T.Bool(1, 2, "peer-leaves") {
+				w.EnableFaults("conn.drop")
+				w.Go("peer-leaves", func() {
+					p := pr.Peers[0]
+					p.AwaitDiscovery()
+					for k := w.T.Choose(30, "leave-delay"); k > 0; k-- {
+						w.Yield("leave-delay")
+					}
+					if !w.FaultsOn {
+						return
+					}
+					w.Logf("fault conn.drop P1")
+					if pr.L.Disconnect(p.Name) {
+						w.Fault("conn.drop")
+						w.Probe("c15-last-peer-removed")
+					}
+					if w.T.Bool(1, 2, "peer-returns") {
+						for k := w.T.Choose(10, "return-delay"); k > 0; k-- {
+							w.Yield("return-delay")
+						}
+						w.Fault("conn.restart")
+						p.Connect()
+					}
+				})
+			}
 			nt := 2 + w.T.Choose(3, "tasks")
 			for i := 0; i < nt; i++ {
 				w.Go(fmt.Sprintf("app%d", i), func() {
@@ -281,6 +323,16 @@ func init() {
 									w.Violate("C15/application-handler-before-core-handler", "application handler h%d handled %s at %d, the core handler was still writing at %d", h.id, p.marker, a, coreMax)
 								}
 							}
+						}
+					}
+				}
+			}
+			// a handler receives nothing that is published after its unsubscription returned
+			if h2 := d.coreH2; h2 != nil && h2.unsubRet != 0 {
+				for _, g := range h2.got {
+					for _, p := range d.ops {
+						if p.kind == "pub" && p.marker == g.marker && p.invoke > h2.unsubRet {
+							w.Violate("C15/event-delivered-after-unsubscribe", "core level handler h%d received %s (published at %d) although its unsubscription had returned at %d", h2.id, g.marker, p.invoke, h2.unsubRet)
 						}
 					}
 				}
